@@ -1,6 +1,7 @@
 import PersimVerif.Model.Kernels
 import PersimVerif.Lemmas.Kernels
 import PersimVerif.Generated.KernelConsts
+import Mathlib.Tactic.NormNum.OfScientific
 import Mathlib.Analysis.SpecialFunctions.Sqrt
 import Mathlib.Topology.Algebra.Order.Field
 import Mathlib.MeasureTheory.Measure.Lebesgue.Basic
@@ -95,6 +96,10 @@ example : uniform (-7/4 : ℚ) (2 : ℚ) (-1) 2 3 (1/2) = 1/8 := by
   rw [uniform_inside (by norm_num) (by norm_num) (by norm_num) (by norm_num) (by norm_num) (by norm_num)]
   norm_num
 example : (0 : ℚ) < 3 ∧ (0 : ℚ) < 1 / 2 := by norm_num
+
+/-- the guard `0 < w, 0 < h` is the property's quantifier ("the box"), the code itself does not check it; it
+    is needed: with a negative width the value far to the left of the box is not 0 -/
+example : uniform (-10 : ℚ) 0 0 0 (-2) 1 = 1 / 2 := by decide +kernel
 
 /-! ## The product form (zero covariance) for any monotone Φ into [0,1] -/
 
@@ -293,6 +298,95 @@ theorem gaussian_zero_cov_is_bivariate_normal_cdf (μ0 μ1 : ℝ) {s00 s11 : ℝ
 example : (0 : ℝ) < 1 / 10000 ∧ (0 : ℝ) < 10000 := by norm_num
 
 end real
+
+/-! ## The pre-fix code (regression witnesses) -/
+
+/-- **what the code before /repo 378a266 (`ind = asr > 100`) dropped**: whenever `-100 < asr ≤ 100` — i.e. at
+    every point that matters — the old value of the `|r| ≥ 0.925` branch differs from the present one by exactly
+    the leading term `sopmr·exp(asr)·(1 − c(bs−as)(1−d·bs/5)/3 + c·d·as²/5)/(2π)` of Genz's expansion, for every
+    `exp sqrt Φ π` and every quadrature rule.  (`bvnHiCore` with `cutAsrOld` is the model of the old code.) -/
+theorem old_cutoff_drops_leading_term (exp sqrt Φ : K → K) (pi : K) (rule : GLRule K) (dh dk hk r : K)
+    (hnew : (cutAsr : K) < -1.0 * ((dh - dk) * (dh - dk) / ((1.0 - r) * (1.0 + r)) + hk) / 2.0)
+    (hold : ¬ (cutAsrOld : K) < -1.0 * ((dh - dk) * (dh - dk) / ((1.0 - r) * (1.0 + r)) + hk) / 2.0) :
+    bvnHiCore exp sqrt Φ pi cutAsr cutHk cutAsr1 true rule dh dk hk r
+      - bvnHiCore exp sqrt Φ pi cutAsrOld cutHk cutAsr1 true rule dh dk hk r
+    = -(sqrt ((1.0 - r) * (1.0 + r)) *
+        (exp (-1.0 * ((dh - dk) * (dh - dk) / ((1.0 - r) * (1.0 + r)) + hk) / 2.0) *
+          (1.0 - ((4.0 - hk) / 8.0 * ((dh - dk) * (dh - dk) - (1.0 - r) * (1.0 + r))) *
+              ((1.0 - (12.0 - hk) / 16.0 * ((dh - dk) * (dh - dk)) / 5.0) / 3.0)
+            + (4.0 - hk) / 8.0 * ((12.0 - hk) / 16.0) * ((1.0 - r) * (1.0 + r)) * ((1.0 - r) * (1.0 + r)) / 5.0)))
+      / (2.0 * pi) := by
+  unfold bvnHiCore
+  simp only [if_pos hnew, if_neg hold]
+  have e0 : (0.0 : K) = 0 := by norm_num
+  have e1 : (1.0 : K) = 1 := by norm_num
+  have e2 : (2.0 : K) = 2 := by norm_num
+  have e3 : (3.0 : K) = 3 := by norm_num
+  have e4 : (4.0 : K) = 4 := by norm_num
+  have e5 : (5.0 : K) = 5 := by norm_num
+  have e8 : (8.0 : K) = 8 := by norm_num
+  have e12 : (12.0 : K) = 12 := by norm_num
+  have e16 : (16.0 : K) = 16 := by norm_num
+  simp only [e0, e1, e2, e3, e4, e5, e8, e12, e16]
+  split_ifs <;> ring
+
+/-- **regression witness for 378a266** (`r = 0.95`, half a standard deviation above the mean in both
+    coordinates: `dh = dk = −1/2`): the old and the present code differ there by at least
+    `√(39/400)·exp(−1/8)/(2π)` (≈ 0.0439; the error observed on the real pre-fix code at this point was 0.0446),
+    for every positive-valued `exp`, `sqrt`, `π`.  That the *old* value is the wrong one is not a theorem about
+    the reals available here (it needs the true bivariate normal CDF); it is what the [T] accuracy stream shows
+    on the model `bvnOld` and on the reverted tree. -/
+theorem old_cutoff_counterexample (exp sqrt Φ : K → K) (pi : K) (rule : GLRule K)
+    (hs : 0 < sqrt (39 / 400)) (he : 0 < exp (-1 / 8)) (hp : 0 < pi) :
+    sqrt (39 / 400) * exp (-1 / 8) / (2 * pi) ≤
+      bvnHiCore exp sqrt Φ pi cutAsrOld cutHk cutAsr1 true rule (-(1 / 2)) (-(1 / 2)) (1 / 4) (19 / 20)
+        - bvnHiCore exp sqrt Φ pi cutAsr cutHk cutAsr1 true rule (-(1 / 2)) (-(1 / 2)) (1 / 4) (19 / 20) := by
+  have hnew : (cutAsr : K) < -1.0 * ((-(1 / 2) - -(1 / 2)) * (-(1 / 2) - -(1 / 2)) / ((1.0 - 19 / 20) * (1.0 + 19 / 20)) + 1 / 4) / 2.0 := by
+    norm_num [cutAsr]
+  have hold : ¬ (cutAsrOld : K) < -1.0 * ((-(1 / 2) - -(1 / 2)) * (-(1 / 2) - -(1 / 2)) / ((1.0 - 19 / 20) * (1.0 + 19 / 20)) + 1 / 4) / 2.0 := by
+    norm_num [cutAsrOld]
+  have h := old_cutoff_drops_leading_term exp sqrt Φ pi rule (-(1 / 2)) (-(1 / 2)) (1 / 4) (19 / 20) hnew hold
+  have e : bvnHiCore exp sqrt Φ pi cutAsrOld cutHk cutAsr1 true rule (-(1 / 2)) (-(1 / 2)) (1 / 4) (19 / 20)
+        - bvnHiCore exp sqrt Φ pi cutAsr cutHk cutAsr1 true rule (-(1 / 2)) (-(1 / 2)) (1 / 4) (19 / 20)
+      = sqrt (39 / 400) * exp (-1 / 8) * (332886461 / 327680000 : K) / (2 * pi) := by
+    rw [← neg_sub, h]
+    norm_num
+    ring
+  rw [e]
+  have : 0 < sqrt (39 / 400) * exp (-1 / 8) / (2 * pi) := by positivity
+  have e2 : sqrt (39 / 400) * exp (-1 / 8) * (332886461 / 327680000 : K) / (2 * pi)
+      = (sqrt (39 / 400) * exp (-1 / 8) / (2 * pi)) * (332886461 / 327680000) := by ring
+  rw [e2]
+  nlinarith
+
+/-- **the repair of /repo 4b6a233 (mask the exponent of `ep1` before `exp`) does not change the function over an
+    ordered field**: masked entries are multiplied by `ind1 = 0` either way, unmasked ones have `ind1 = 1`.  The
+    defect it removed (`exp` overflows to `inf`, `inf·0 = NaN` in far tails) exists only in IEEE arithmetic, which is
+    why it is guarded by the [T] `far_tails` stream and the far-tail correspondence, not by a theorem. -/
+theorem far_tail_fix_is_exact_over_the_reals (exp sqrt Φ : K → K) (pi cA cH cA1 : K) (rule : GLRule K)
+    (dh dk hk r : K) :
+    bvnHiCore exp sqrt Φ pi cA cH cA1 true rule dh dk hk r
+      = bvnHiCore exp sqrt Φ pi cA cH cA1 false rule dh dk hk r := by
+  have e0 : (0.0 : K) = 0 := by norm_num
+  have e1 : (1.0 : K) = 1 := by norm_num
+  have key : ∀ (c a E rs sp s : K),
+      s * exp (a * (if c < a then (1.0 : K) else 0.0)) *
+          (exp (E * (if c < a then (1.0 : K) else 0.0)) / rs * (if c < a then (1.0 : K) else 0.0)
+            - sp * (if c < a then (1.0 : K) else 0.0))
+        = s * exp (a * (if c < a then (1.0 : K) else 0.0)) *
+          (exp E / rs * (if c < a then (1.0 : K) else 0.0) - sp * (if c < a then (1.0 : K) else 0.0)) := by
+    intro c a E rs sp s
+    split_ifs <;> simp [e0, e1]
+  unfold bvnHiCore
+  simp only [↓reduceIte, Bool.false_eq_true, key]
+
+/-- the same for the whole `bvn_cdf`: the model of the present code and the model of the code before 4b6a233 agree
+    on every input, for every `exp sin asin sqrt Φ π` -/
+theorem bvn_eq_bvnOldTail (exp sin asin sqrt Φ : K → K) (pi x y μ0 μ1 sxx syy sxy : K) :
+    bvn exp sin asin sqrt Φ pi x y μ0 μ1 sxx syy sxy
+      = bvnOldTail exp sin asin sqrt Φ pi x y μ0 μ1 sxx syy sxy := by
+  unfold bvn bvnOldTail bvnWith bvnHi
+  simp only [far_tail_fix_is_exact_over_the_reals]
 
 /-! ## The clause that is *not* proved
 
